@@ -51,9 +51,9 @@ package forkexec
 //@   requires 0 <= p[0] && p[0] < 2147483648 && 0 <= p[1] && p[1] < 2147483648 && p[0] != p[1]
 //@   requires r.ExecFile < 2147483648 && len(r.Files) < 1048576
 //@   requires len(argv) >= 1 && len(env) >= 1
-//@   requires #int forall j int, k int :: 0 <= j && j < k && k < len(r.Mounts) ==> r.Mounts[j].Target != r.Mounts[k].Target
-//@   requires #int forall k int :: 0 <= k && k < len(r.Mounts) ==> r.Mounts[k].Target != nil && r.Mounts[k].Flags & 32 == 0 && r.Mounts[k].Target != elemaddr(slash, 0)
-//@   requires #int pivotRoot != nil ==> forall k int :: 0 <= k && k < len(r.Mounts) ==> r.Mounts[k].Target != pivotRoot
+//@   requires #int %mnt forall j int, k int :: 0 <= j && j < k && k < len(r.Mounts) ==> r.Mounts[j].Target != r.Mounts[k].Target
+//@   requires #int %mnt forall k int :: 0 <= k && k < len(r.Mounts) ==> r.Mounts[k].Target != nil && r.Mounts[k].Flags & 32 == 0 && r.Mounts[k].Target != elemaddr(slash, 0)
+//@   requires #int %mnt pivotRoot != nil ==> forall k int :: 0 <= k && k < len(r.Mounts) ==> r.Mounts[k].Target != pivotRoot
 //@   assume #int forall j int :: K.fdt[j] != 0 ==> K.clo[j]
 //@   assume K.fdt[p[1]] != 0
 //@   assume #int forall k int :: 0 <= k && k < len(r.Files) ==> r.Files[k] != p[0]
@@ -63,45 +63,45 @@ package forkexec
 //@   loop 0: decreases #int ite(pipe >= nextfd, 1, 0)
 //@   loop 1: invariant #int 0 <= i && i <= len(fd) && nextfd > len(fd) && nextfd <= 2147483652 + 3 * i
 //@   loop 1: invariant #int fresh(fd) && soff(fd) == 0 && K.sync_stage == 0
-//@   loop 1: invariant #int len(fd) == len(old(r.Files)) && pipe >= len(fd) && K.fdt[pipe] == old(K.fdt[p[1]]) && K.clo[pipe]
+//@   loop 1: invariant #int %fd len(fd) == len(old(r.Files)) && pipe >= len(fd) && K.fdt[pipe] == old(K.fdt[p[1]]) && K.clo[pipe]
 //@   loop 1: invariant #int forall k int :: 0 <= k && k < len(fd) ==> -1 <= fd[k] && fd[k] < nextfd
 //@   loop 1: invariant #int forall k int :: 0 <= k && k < len(fd) ==> (fd[k] == -1 <==> old(r.Files[k]) == 18446744073709551615)
 //@   loop 1: invariant #int forall k int :: 0 <= k && k < i ==> fd[k] == -1 || fd[k] >= k
-//@   loop 1: invariant #int forall k int :: 0 <= k && k < len(fd) && fd[k] != -1 ==> K.fdt[fd[k]] == old(K.fdt[r.Files[k]])
-//@   loop 1: invariant #int forall j int :: j >= len(fd) && K.fdt[j] != 0 ==> K.clo[j]
+//@   loop 1: invariant #int %fd forall k int :: 0 <= k && k < len(fd) && fd[k] != -1 ==> K.fdt[fd[k]] == old(K.fdt[r.Files[k]])
+//@   loop 1: invariant #int %fd forall j int :: j >= len(fd) && K.fdt[j] != 0 ==> K.clo[j]
 //@   loop 1: decreases #int len(fd) - i
 //@   loop 2: invariant #int nextfd > len(fd) && nextfd + ite(pipe >= nextfd, 1, 0) + ite(int(execFile) >= nextfd, 1, 0) <= 2147483654 + 3 * i
 //@   loop 2: invariant #int forall k int :: 0 <= k && k < len(fd) ==> fd[k] < nextfd
 //@   loop 2: decreases #int ite(pipe >= nextfd, 1, 0) + ite(int(execFile) >= nextfd, 1, 0)
 //@   loop 3: invariant #int 0 <= i && i <= len(fd) && len(fd) == len(old(r.Files))
 //@   loop 3: invariant #int fresh(fd) && soff(fd) == 0 && K.sync_stage == 0
-//@   loop 3: invariant #int pipe >= len(fd) && K.fdt[pipe] == old(K.fdt[p[1]]) && K.clo[pipe]
+//@   loop 3: invariant #int %fd pipe >= len(fd) && K.fdt[pipe] == old(K.fdt[p[1]]) && K.clo[pipe]
 //@   loop 3: invariant #int forall k int :: 0 <= k && k < len(fd) ==> (fd[k] == -1 <==> old(r.Files[k]) == 18446744073709551615)
-//@   loop 3: invariant #int forall k int :: 0 <= k && k < i ==> (fd[k] == -1 && K.fdt[k] == 0) || (fd[k] != -1 && K.fdt[k] == old(K.fdt[r.Files[k]]) && !K.clo[k])
-//@   loop 3: invariant #int forall k int :: i <= k && k < len(fd) ==> fd[k] == -1 || (fd[k] >= k && fd[k] < 2160000000 && K.fdt[fd[k]] == old(K.fdt[r.Files[k]]))
-//@   loop 3: invariant #int forall j int :: j >= len(fd) && K.fdt[j] != 0 ==> K.clo[j]
+//@   loop 3: invariant #int %fd forall k int :: 0 <= k && k < i ==> (fd[k] == -1 && K.fdt[k] == 0) || (fd[k] != -1 && K.fdt[k] == old(K.fdt[r.Files[k]]) && !K.clo[k])
+//@   loop 3: invariant #int %fd forall k int :: i <= k && k < len(fd) ==> fd[k] == -1 || (fd[k] >= k && fd[k] < 2160000000 && K.fdt[fd[k]] == old(K.fdt[r.Files[k]]))
+//@   loop 3: invariant #int %fd forall j int :: j >= len(fd) && K.fdt[j] != 0 ==> K.clo[j]
 //@   loop 3: decreases #int len(fd) - i
 //@   loop 4: invariant #int pipe >= len(old(r.Files)) && K.fdt[pipe] == old(K.fdt[p[1]]) && K.sync_stage == 0
 //@   loop 4: invariant #int -1 <= rangeindex && rangeindex < len(old(r.Mounts))
-//@   loop 4: invariant #int forall k int :: 0 <= k && k < len(old(r.Files)) && old(r.Files[k]) == 18446744073709551615 ==> K.fdt[k] == 0
-//@   loop 4: invariant #int forall k int :: 0 <= k && k < len(old(r.Files)) && old(r.Files[k]) != 18446744073709551615 ==> K.fdt[k] == old(K.fdt[r.Files[k]]) && !K.clo[k]
-//@   loop 4: invariant #int forall j int :: j >= len(old(r.Files)) && K.fdt[j] != 0 ==> K.clo[j]
+//@   loop 4: invariant #int %fd forall k int :: 0 <= k && k < len(old(r.Files)) && old(r.Files[k]) == 18446744073709551615 ==> K.fdt[k] == 0
+//@   loop 4: invariant #int %fd forall k int :: 0 <= k && k < len(old(r.Files)) && old(r.Files[k]) != 18446744073709551615 ==> K.fdt[k] == old(K.fdt[r.Files[k]]) && !K.clo[k]
+//@   loop 4: invariant #int %fd forall j int :: j >= len(old(r.Files)) && K.fdt[j] != 0 ==> K.clo[j]
 //@   loop 5: invariant #int -1 <= rangeindex && rangeindex < len(m.Prefixes)
 //@   loop 6: invariant #int pipe >= len(old(r.Files)) && K.fdt[pipe] == old(K.fdt[p[1]]) && K.sync_stage == 0
 //@   loop 6: invariant #int -1 <= rangeindex && rangeindex < len(old(r.RLimits))
-//@   loop 6: invariant #int forall k int :: 0 <= k && k < len(old(r.Files)) && old(r.Files[k]) == 18446744073709551615 ==> K.fdt[k] == 0
-//@   loop 6: invariant #int forall k int :: 0 <= k && k < len(old(r.Files)) && old(r.Files[k]) != 18446744073709551615 ==> K.fdt[k] == old(K.fdt[r.Files[k]]) && !K.clo[k]
-//@   loop 6: invariant #int forall j int :: j >= len(old(r.Files)) && K.fdt[j] != 0 ==> K.clo[j]
+//@   loop 6: invariant #int %fd forall k int :: 0 <= k && k < len(old(r.Files)) && old(r.Files[k]) == 18446744073709551615 ==> K.fdt[k] == 0
+//@   loop 6: invariant #int %fd forall k int :: 0 <= k && k < len(old(r.Files)) && old(r.Files[k]) != 18446744073709551615 ==> K.fdt[k] == old(K.fdt[r.Files[k]]) && !K.clo[k]
+//@   loop 6: invariant #int %fd forall j int :: j >= len(old(r.Files)) && K.fdt[j] != 0 ==> K.clo[j]
 //@   loop 7: invariant #int -1 <= rangeindex && rangeindex < 50 && sync_files_ok()
-//@   loop 7: invariant #int forall k int :: 0 <= k && k < len(old(r.Files)) && old(r.Files[k]) == 18446744073709551615 ==> K.fdt[k] == 0
-//@   loop 7: invariant #int forall k int :: 0 <= k && k < len(old(r.Files)) && old(r.Files[k]) != 18446744073709551615 ==> K.fdt[k] == old(K.fdt[r.Files[k]]) && !K.clo[k]
-//@   loop 7: invariant #int forall j int :: j >= len(old(r.Files)) && K.fdt[j] != 0 ==> K.clo[j]
-//@   callsite syscall.RawSyscall6 when trap == 322: assert @C06 #int forall k int :: 0 <= k && k < len(old(r.Files)) && old(r.Files[k]) == 18446744073709551615 ==> K.fdt[k] == 0
-//@   callsite syscall.RawSyscall6 when trap == 322: assert @C06 #int forall k int :: 0 <= k && k < len(old(r.Files)) && old(r.Files[k]) != 18446744073709551615 ==> K.fdt[k] == old(K.fdt[r.Files[k]]) && !K.clo[k]
-//@   callsite syscall.RawSyscall6 when trap == 322: assert @C06 #int forall j int :: j >= len(old(r.Files)) && K.fdt[j] != 0 ==> K.clo[j]
-//@   callsite syscall.RawSyscall when trap == 59: assert @C06 #int forall k int :: 0 <= k && k < len(old(r.Files)) && old(r.Files[k]) == 18446744073709551615 ==> K.fdt[k] == 0
-//@   callsite syscall.RawSyscall when trap == 59: assert @C06 #int forall k int :: 0 <= k && k < len(old(r.Files)) && old(r.Files[k]) != 18446744073709551615 ==> K.fdt[k] == old(K.fdt[r.Files[k]]) && !K.clo[k]
-//@   callsite syscall.RawSyscall when trap == 59: assert @C06 #int forall j int :: j >= len(old(r.Files)) && K.fdt[j] != 0 ==> K.clo[j]
+//@   loop 7: invariant #int %fd forall k int :: 0 <= k && k < len(old(r.Files)) && old(r.Files[k]) == 18446744073709551615 ==> K.fdt[k] == 0
+//@   loop 7: invariant #int %fd forall k int :: 0 <= k && k < len(old(r.Files)) && old(r.Files[k]) != 18446744073709551615 ==> K.fdt[k] == old(K.fdt[r.Files[k]]) && !K.clo[k]
+//@   loop 7: invariant #int %fd forall j int :: j >= len(old(r.Files)) && K.fdt[j] != 0 ==> K.clo[j]
+//@   callsite syscall.RawSyscall6 when trap == 322: assert @C06 #int %fd forall k int :: 0 <= k && k < len(old(r.Files)) && old(r.Files[k]) == 18446744073709551615 ==> K.fdt[k] == 0
+//@   callsite syscall.RawSyscall6 when trap == 322: assert @C06 #int %fd forall k int :: 0 <= k && k < len(old(r.Files)) && old(r.Files[k]) != 18446744073709551615 ==> K.fdt[k] == old(K.fdt[r.Files[k]]) && !K.clo[k]
+//@   callsite syscall.RawSyscall6 when trap == 322: assert @C06 #int %fd forall j int :: j >= len(old(r.Files)) && K.fdt[j] != 0 ==> K.clo[j]
+//@   callsite syscall.RawSyscall when trap == 59: assert @C06 #int %fd forall k int :: 0 <= k && k < len(old(r.Files)) && old(r.Files[k]) == 18446744073709551615 ==> K.fdt[k] == 0
+//@   callsite syscall.RawSyscall when trap == 59: assert @C06 #int %fd forall k int :: 0 <= k && k < len(old(r.Files)) && old(r.Files[k]) != 18446744073709551615 ==> K.fdt[k] == old(K.fdt[r.Files[k]]) && !K.clo[k]
+//@   callsite syscall.RawSyscall when trap == 59: assert @C06 #int %fd forall j int :: j >= len(old(r.Files)) && K.fdt[j] != 0 ==> K.clo[j]
 
 // ---- bv mode: the security state at the exec point (every option combination; every call may fail) ----
 // Initial ghost state of a freshly cloned child (inherits nothing of these from the model's point of view).
@@ -111,15 +111,25 @@ package forkexec
 //@   loop 1: invariant #bv pre_shuffle_ok()
 //@   loop 2: invariant #bv true
 //@   loop 3: invariant #bv pre_shuffle_ok()
+//@   loop 4: invariant #int %mnt forall k int :: 0 <= k && k <= rangeindex ==> m_done(k)
+//@   loop 4: invariant #int %mnt forall k int :: 0 <= k && k <= rangeindex ==> m_src(k)
+//@   loop 4: invariant #int %mnt forall k int :: 0 <= k && k <= rangeindex ==> m_type(k)
+//@   loop 4: invariant #int %mnt forall k int :: 0 <= k && k <= rangeindex ==> m_flags(k)
+//@   loop 4: invariant #int %mnt forall k int :: 0 <= k && k <= rangeindex ==> m_data(k)
+//@   loop 4: invariant #int %mnt forall k int :: 0 <= k && k <= rangeindex ==> m_ro(k)
 //@   loop 4: invariant #bv pre_shuffle_ok() && session_ok() && (pivotRoot != nil ==> K.cwd == addr(pivotRoot))
 //@   loop 5: invariant #bv true
+//@   loop 6: invariant #int %mnt forall k int :: 0 <= k && k < len(old(r.Mounts)) ==> mount_entry_ok(k)
 //@   loop 6: invariant #bv base_ok()
 //@   loop 6: invariant #bv session_ok()
 //@   loop 6: invariant #bv fs_ok()
 //@   loop 6: invariant #bv names_ok()
+//@   loop 7: invariant #int %mnt forall k int :: 0 <= k && k < len(old(r.Mounts)) ==> mount_entry_ok(k)
 //@   loop 7: invariant #bv exec_state_ok() && (K.last_trap == 59 || K.last_trap == 322)
 //@   callsite syscall.RawSyscall6 when trap == 322: assert @C04 #bv caps_ok() && nnp_ok() && filter_ok() && creds_ok() && session_ok() && names_ok()
 //@   callsite syscall.RawSyscall when trap == 59: assert @C04 #bv caps_ok() && nnp_ok() && filter_ok() && creds_ok() && session_ok() && names_ok()
+//@   callsite syscall.RawSyscall6 when trap == 322: assert @C05 #int %mnt forall k int :: 0 <= k && k < len(old(r.Mounts)) ==> mount_entry_ok(k)
+//@   callsite syscall.RawSyscall when trap == 59: assert @C05 #int %mnt forall k int :: 0 <= k && k < len(old(r.Mounts)) ==> mount_entry_ok(k)
 //@   callsite syscall.RawSyscall6 when trap == 322: assert @C05 #bv fs_ok()
 //@   callsite syscall.RawSyscall when trap == 59: assert @C05 #bv fs_ok()
 //@   callsite syscall.RawSyscall6 when trap == 322: assert @C07 #int sync_files_ok()
@@ -145,10 +155,15 @@ package forkexec
 //@ macro session_ok() = K.sid_new && (old(r.CTTY) ==> K.ctty)
 //@ macro names_ok() = (workdir != nil ==> K.cwd == addr(workdir)) && (hostname != nil ==> K.host_issued && K.host == addr(hostname) && K.hostlen == uintptr(len(old(r.HostName)))) && (domainname != nil ==> K.domain_issued && K.domain == addr(domainname) && K.domainlen == uintptr(len(old(r.DomainName))))
 //@ macro fs_ok() = pivotRoot != nil ==> K.pivoted && K.pivot_new == addr(pivotRoot) && K.old_detached && K.old_removed && K.remount_done[addr(elemaddr(slash, 0))] && K.remount[addr(elemaddr(slash, 0))] & 4129 == 4129
-// (not claimed yet: the quantified loop invariant below times out in both arithmetic modes; kept for later)
 // mount entry k was mounted with exactly its parameters; a bind-read-only entry was remounted with at
 // least its own flags plus MS_REMOUNT (32). bindRo = MS_BIND|MS_RDONLY = 4097.
-//@ macro mount_entry_ok(k) = K.mnt_done[addr(old(r.Mounts[k].Target))] && K.mnt_src[addr(old(r.Mounts[k].Target))] == addr(old(r.Mounts[k].Source)) && K.mnt_type[addr(old(r.Mounts[k].Target))] == addr(old(r.Mounts[k].FsType)) && K.mnt_flags[addr(old(r.Mounts[k].Target))] == old(r.Mounts[k].Flags) && K.mnt_data[addr(old(r.Mounts[k].Target))] == addr(old(r.Mounts[k].Data)) && (old(r.Mounts[k].Flags) & 4097 == 4097 ==> K.remount_done[addr(old(r.Mounts[k].Target))] && K.remount[addr(old(r.Mounts[k].Target))] & (old(r.Mounts[k].Flags) | 32) == old(r.Mounts[k].Flags) | 32)
+//@ macro m_done(k) = K.mnt_done[addr(old(r.Mounts[k].Target))]
+//@ macro m_src(k) = K.mnt_src[addr(old(r.Mounts[k].Target))] == addr(old(r.Mounts[k].Source))
+//@ macro m_type(k) = K.mnt_type[addr(old(r.Mounts[k].Target))] == addr(old(r.Mounts[k].FsType))
+//@ macro m_flags(k) = K.mnt_flags[addr(old(r.Mounts[k].Target))] == old(r.Mounts[k].Flags)
+//@ macro m_data(k) = K.mnt_data[addr(old(r.Mounts[k].Target))] == addr(old(r.Mounts[k].Data))
+//@ macro m_ro(k) = (old(r.Mounts[k].Flags) & 4097 == 4097 ==> K.remount_done[addr(old(r.Mounts[k].Target))] && K.remount[addr(old(r.Mounts[k].Target))] & (old(r.Mounts[k].Flags) | 32) == old(r.Mounts[k].Flags) | 32)
+//@ macro mount_entry_ok(k) = m_done(k) && m_src(k) && m_type(k) && m_flags(k) && m_data(k) && m_ro(k)
 //@ macro caps_ok() = (old(r.Credential) != nil || old(r.DropCaps)) ==> K.caps_empty && K.secbits & 3 == 3
 //@ macro nnp_ok() = (old(r.NoNewPrivs) || old(r.Seccomp) != nil) ==> K.nnp
 //@ macro filter_ok() = (old(r.Seccomp) != nil ==> K.filter == addr(old(r.Seccomp)) && K.filter_flags == 1) && (old(r.Seccomp) == nil ==> K.filter == 0)
@@ -167,5 +182,5 @@ package forkexec
 //@ global pkg/forkexec.dropCapData props C04: invariant dropCapData.Effective == 0 && dropCapData.Permitted == 0 && dropCapData.Inheritable == 0
 
 // Bit-level facts used by the int-mode proof of the mount loop (proved in bv mode, exported to int mode).
-//@ lemma bits_or_absorb arith bv export props C05: forall a uintptr, x uintptr :: (a | x) & a == a
-//@ lemma bits_remount_set arith bv export props C05: forall a uintptr, x uintptr :: ((a | 32) | x) & 32 != 0
+//@ lemma bits_or_absorb arith bv export group mnt props C05: forall a uintptr, x uintptr :: (a | x) & a == a
+//@ lemma bits_remount_set arith bv export group mnt props C05: forall a uintptr, x uintptr :: ((a | 32) | x) & 32 != 0
